@@ -296,6 +296,19 @@ def step (line : String) : String :=
       (match pairs.foldl step (.ok out0) with
        | .ok t => (Json.mkObj [("ok", A.nodeToJson t)]).compress
        | .error e => (Json.mkObj [("raises", Json.str e)]).compress)
+    | .ok "gen_hoist" =>
+      -- stmts: [["imp", future:bool, text] | ["other", name|null, text]] in production order
+      let stmts : List Gen.GStmt := match j.getObjVal? "stmts" with
+        | .ok (Json.arr a) => a.toList.filterMap fun x => match x with
+          | Json.arr #[Json.str "imp", Json.bool f, Json.str t] => some (.imp f t.toList)
+          | Json.arr #[Json.str "other", Json.null, Json.str t] => some (.other none t.toList)
+          | Json.arr #[Json.str "other", Json.str n, Json.str t] => some (.other (some n.toList) t.toList)
+          | _ => none
+        | _ => []
+      (Json.mkObj [("ok", Json.arr ((Gen.hoist stmts).map fun g => match g with
+          | .imp f t => Json.arr #[Json.str "imp", Json.bool f, Json.str (String.ofList t)]
+          | .other none t => Json.arr #[Json.str "other", Json.null, Json.str (String.ofList t)]
+          | .other (some n) t => Json.arr #[Json.str "other", Json.str (String.ofList n), Json.str (String.ofList t)]).toArray)]).compress
     | .ok "conform" =>
       let b (k : String) := (j.getObjValAs? Bool k).toOption.getD false
       let o : Conform.Obs := { fileExists := b "exists", found := b "found", cmpEq := b "cmp_eq",
